@@ -7,8 +7,16 @@ from core import hx, exc_name
 from uriutil import render_uri, guarded
 
 ID = 'C12'
-MODULES = ['Httoop.Props.C12']
+MODULES = ['Httoop.Props.C12', 'Httoop.Props.C12Whole']
 THEOREMS = [
+	'Httoop.Uri.join_eq_rfc',
+	'Httoop.Uri.toRef_rfcRecord',
+	'Httoop.Uri.join_eq_rfc_scheme',
+	'Httoop.Uri.rfcRecord_port',
+	'Httoop.Uri.normalize_normalBase',
+	'Httoop.Uri.join_path_merge',
+	'Httoop.Uri.join_path_merge_empty',
+	'Httoop.Uri.join_eq_rfc_witness',
 	'Httoop.Uri.join_path_eq_rfc',
 	'Httoop.Uri.join_scheme_ref',
 	'Httoop.Uri.join_components',
@@ -20,7 +28,8 @@ THEOREMS = [
 ]
 TRUSTED = [
 	'Spec/Rfc3986.lean transcribes RFC 3986 5.2.2-5.2.4; presence of a component = non-empty (httoop cannot tell "?" from an absent query; such references are outside the quantifier)',
-	'the final step "abspath = remove_dot_segments o collapse" is correspondence-level (open theorem, see C11)',
+	'the transcription in Spec/Rfc3986.lean is compared on every case with a second, independent transcription (harness/rfc3986.py, driver operation rfc.resolve): no httoop code on either side of that comparison',
+	'the dot-segment step is section 5.2.4 applied to the slash-collapsed path (C11 fixes that normal form; readings_differ_witness shows where it differs from 5.2.4 alone)',
 ]
 ASSUMPTIONS = ['bases are normalised absolute http(s) URIs without fragment (the property\'s quantifier)']
 RULE = ('bases: normalised http(s) URIs with/without path, trailing slash, query; references: scheme-qualified, network-path, absolute-path, relative-path over '
@@ -65,8 +74,23 @@ def search(rng, res):
 	return cases(rng, 'thorough')
 
 
+def spec_args(base, ref):
+	b, r = rfc3986.split(base), rfc3986.split(ref)
+	opt = [b[0], b[1], b[3], b[4], r[0], r[1], r[3], r[4]]
+	fl = ''.join('1' if x is not None else '0' for x in opt)
+	vals = [b[0], b[1], b[2], b[3], b[4], r[0], r[1], r[2], r[3], r[4]]
+	return [hx(fl.encode())] + [hx((v or u'').encode('utf-8')) for v in vals]
+
+
 def model_lines(case):
-	return ['uri.join %s %s' % (hx(case[1].encode()), hx(case[2].encode()))]
+	return ['uri.join %s %s' % (hx(case[1].encode()), hx(case[2].encode())), 'rfc.resolve ' + ' '.join(spec_args(case[1], case[2]))]
+
+
+def spec_line(base, ref):
+	"""the second transcription of RFC 3986 5.2.2 (harness/rfc3986.py), rendered like the driver renders Spec/Rfc3986.lean"""
+	t = rfc3986.resolve(base, ref, remove_dot_segments=lambda p: rfc3986.remove_dot_segments(rfc3986.collapse(p)))
+	r = lambda v: 'none' if v is None else 'some:' + hx(v.encode('utf-8'))
+	return '%s %s %s %s %s' % (r(t[0]), r(t[1]), hx(t[2].encode('utf-8')), r(t[3]), r(t[4]))
 
 
 def impl_join(base, ref):
@@ -79,7 +103,7 @@ def impl_join(base, ref):
 
 
 def impl_lines(case):
-	return [guarded(lambda: render_uri(impl_join(case[1], case[2])))]
+	return [guarded(lambda: render_uri(impl_join(case[1], case[2]))), spec_line(case[1], case[2])]
 
 
 def degenerate(ref):
@@ -213,7 +237,9 @@ def finding_still_fails(k):
 	return oracle(undescribe(k['witness'])) is not None
 
 
-LEVEL_TEXT = ('Theorems over ALL bases and parsed references: which of scheme/authority/query/fragment the result takes from the reference or the base is exactly RFC 3986 5.2.2; for relative-path '
-	'references the "/../" concatenation equals abspath of the RFC 5.2.3 merge (parent_trick), for every normalised base path and every reference path, unbounded. '
-	'The last link - abspath plus the leading slash = remove_dot_segments of the collapsed path - is the theorem abspath_eq_rfc of C11 (join_path_eq_rfc).')
+LEVEL_TEXT = ('THE WHOLE STATEMENT is a theorem (Props/C12Whole.lean): for EVERY normalised absolute base without fragment (NormalBase; normalize_normalBase shows that normalize() of any absolute URI yields one, with or without a path) and EVERY reference record without scheme - network-path, absolute-path, relative-path, query-only, fragment-only, empty - '
+	'base.join(reference) = normalize(rfcRecord) (join_eq_rfc), where rfcRecord carries exactly the five components that the transcription of RFC 3986 5.2.2 ("transform references") prescribes (toRef_rfcRecord: scheme, authority, path, query, fragment each from the reference or the base as in the RFC; rfcRecord_port: the port goes with the authority, else the default of the base scheme); '
+	'references with a scheme: join_eq_rfc_scheme. The path link (join_path_merge, join_path_merge_empty): the text join() hands to abspath() - base path, "/../" unless the base path ends with a slash, reference path - has the same normal form as the RFC 5.2.3 merge, for every base path without dot segments and slash runs and every reference path of any length (collapse passes over both junctions, the split is the segment list, parent_trick pops the last base segment), also for a base without path. '
+	'Earlier pieces: which component comes from where (join_components, join_path_cases), parent_trick, join_relative_path_eq_merge, and abspath = remove_dot_segments of the collapsed path (abspath_eq_rfc of C11, join_path_eq_rfc). '
+	'The RFC transcription itself is compared on every generated case with a second independent transcription (rfc.resolve against harness/rfc3986.py).')
 LEVEL_NOTE = 'Trusted: Lean kernel, the RFC transcription, extract.py/correspondence. Degenerate references ("?", "#", "//", "s:") are outside the quantifier and skipped by the oracle.'
